@@ -15,7 +15,7 @@ Vocab == [ atoms |-> [ none |-> "" ] ]
 SessionCreds == {"valid", "aged_valid", "expired", "tamper_value", "tamper_ts", "tamper_sig", "other_secret", "csrf_as_session",
                  "ticket_no_entry", "garbage"}
 BearerCreds  == {"bearer_valid", "bearer_otherkey", "bearer_algnone", "bearer_hs256pub", "bearer_wrong_iss", "bearer_wrong_aud",
-                 "bearer_expired", "bearer_unverified"}
+                 "bearer_expired", "bearer_unverified", "bearer_multi_aud_azp"}     \* the last: aud = [two other services], azp = this client
 BasicCreds   == {"basic_valid", "basic_wrongpw", "basic_malformed"}
 ComboCreds   == {"valid_plus_badbearer", "expired_plus_goodbearer"}
 Creds == {"none"} \cup SessionCreds \cup BearerCreds \cup BasicCreds \cup ComboCreds
